@@ -114,7 +114,18 @@ def run(case):
         nexec = npts = 0
         outcomes = set()
         runs = []
-        for choices, pre, res in twin.explore_lines(calls, lambda f: f == fname, case['bound'], modules=[chc], max_exec=20000):
+        stuck = 0
+        it = twin.explore_lines(calls, lambda f: f == fname, case['bound'], modules=[chc], max_exec=20000)
+        while True:
+            try:
+                choices, pre, res = next(it)
+            except StopIteration:
+                break
+            except twin.SchedulerStuck:
+                stuck = 1      # a thread blocked on a real lock held by a paused thread: the decoder synchronises itself; inconclusive
+                break
+            if False:
+                pass
             if choices == 'CAPPED':
                 extra['threads_capped'] = 1
                 break
@@ -128,7 +139,7 @@ def run(case):
             if not ok and not probs:
                 probs.append(dict(sig='euler16:concurrent-first-calls-differ', msg=f'{case["n"]} concurrent decodes, schedule {choices} ({pre} preemptions): a thread got triads different from the sequential decode'))
         return dict(problems=probs, nt=[('threads', case['n'], case['bound'])], evals=nexec,
-                    extra=dict(line_schedules_explored=nexec, line_scheduling_points=npts, distinct_thread_outcomes=[str(o) for o in outcomes]))
+                    extra=dict(line_schedules_explored=nexec, line_scheduling_points=npts, line_exploration_stuck_on_real_lock=stuck, distinct_thread_outcomes=[str(o) for o in outcomes]))
     if mode in ('batch', 'chunks', 'single'):
         if mode == 'batch':
             arr = codes.copy()
@@ -150,7 +161,7 @@ def run(case):
             sel = codes[case['lo']:case['hi']]
             res = [chc._unpack_euler16(sel[i:i + 1].copy()) for i in range(len(sel))]
             mn = np.concatenate([r[0] for r in res]); md = np.concatenate([r[1] for r in res]); mj = np.concatenate([r[2] for r in res])
-        tol = max(1e-12, 8 * float(np.finfo(np.asarray(mj).dtype).eps)) if np.asarray(mj).dtype.kind == 'f' else 1e-12
+        tol = max(1e-12, 64 * float(np.finfo(np.asarray(mj).dtype).eps)) if np.asarray(mj).dtype.kind == 'f' else 1e-12
         for sig, msg in geometry(mn, md, mj, tol, sel):
             probs.append(dict(sig=f'euler16:{sig}', msg=f'{mode}: {msg}'))
         # batching must not matter: compare with the single batch decode of the same codes
